@@ -40,6 +40,7 @@ type C19Case struct {
 	EventHandlers int     `json:"event_handlers"`
 	// the application removes one of its own handlers (Remove...Handler with the id it was given)
 	// right before the send step RemoveAt; -1: no removal
+	RefusedFirst  bool    `json:"refused_first,omitempty"` // acceptor: a Logon refused by the application's callback precedes the good one
 	HeldReuse     bool    `json:"held_reuse,omitempty"` // the history contains a stretch in which the peer is not reading (messages stay queued, buffer 10) and the application sends ONE message object 2-3 times with another MDReqID each time (steps named held-...)
 	Prior         *Script `json:"prior,omitempty"` // an earlier session on the same stores, after which the application reset both counters
 	RemoveHandler int    `json:"remove_handler"`
@@ -81,6 +82,13 @@ func genC19(t *rapid.T) *C19Case {
 	c.EventHandlers = rapid.IntRange(0, 3).Draw(t, "nEvent")
 	c.RemoveHandler = -1
 	g := &hgen{t: t, cfg: cfg, inSeq: 1}
+	if cfg.Role == "acceptor" && rapid.IntRange(0, 3).Draw(t, "refusedLogonFirst") == 0 {
+		// a Logon the application's callback refuses comes first: it, too, is offered to every Logon handler
+		c.Cfg.Approve = "user:alice:secret"
+		g.cfg.Approve = c.Cfg.Approve
+		c.Steps = append(c.Steps, rig.Step{Op: "in", In: g.logon(LogonSpec{HB: "inside", Method: "allowed", Creds: "bad"})})
+		c.RefusedFirst = true
+	}
 	c.Steps = append(c.Steps, rig.Step{Op: "in", In: g.goodLogon(0)})
 	n := rapid.IntRange(1, 30).Draw(t, "nSteps")
 	for i := 0; i < n; i++ {
@@ -652,6 +660,9 @@ func checkC19(c *C19Case, rec *evid.Rec) (vs []pbt.Violation) {
 	}
 	if c.HeldReuse {
 		rec.Hist("one-object-sent-repeatedly-while-peer-not-reading")
+	}
+	if c.RefusedFirst {
+		rec.Hist("refused-logon-first")
 	}
 	rec.Hist(fmt.Sprintf("out-handlers=%d", outPool))
 	rec.Hist(fmt.Sprintf("in-handlers=%d", inPool))
